@@ -152,8 +152,20 @@ def trace_process(paths_main, include_dirs):
                 visible.extend(x.name for x in n.members if not isinstance(x, model.Include))
             else:
                 visible.append(n.name)
-        results.append({'leaf': os.path.splitext(os.path.basename(p))[0], 'visible': visible, 'parsed': events[start:]})
+        results.append({'leaf': os.path.splitext(os.path.basename(p))[0], 'visible': visible, 'parsed': events[start:], 'nodes': nodes})
     return results
+
+
+def include_shape(nodes, marker, depth=0):
+    """preorder (depth, marker name) list of the include tree below a file: every file of link_layouts defines one struct
+    named `marker...` that tells which real file it is"""
+    from prophyc import model
+    own = [n.name for n in nodes if not isinstance(n, model.Include) and n.name.startswith(marker)]
+    out = [[depth, own[0] if own else None]]
+    for n in nodes:
+        if isinstance(n, model.Include):
+            out.extend(include_shape(n.members, marker, depth + 1))
+    return out
 
 
 def run_c16(tier):
@@ -474,6 +486,136 @@ def isar_runs(chk, root):
                 chk.property_violation(casej, {'what': 'generated files differ from the run with hash seed 0', 'files': diff})
 
 
+def link_layouts(chk, root):
+    """random small file systems with symbolic links: the same leaf names in several directories (next to files, next to
+    links, in -I directories), files reached directly and through links; every command-line order of the inputs and each
+    input alone must generate the same bytes for a file, or end in a diagnostic"""
+    import itertools
+    leaves = ['a', 'b', 'c', 'x', 'y']
+    link_reqs, link_rows = [], []
+    for li in range(chk.scale(14, 160)):
+        rng = chk.rng
+        base = os.path.join(root, 'links%d' % li)
+        dirs = ['d%d' % k for k in range(rng.randint(2, 4))]
+        incdirs = rng.sample(dirs, rng.randint(0, 2))
+        files, listing = {}, {}
+        mfiles, mentries = [], []
+        for d in dirs:
+            os.makedirs(os.path.join(base, d))
+        # 1. where things are: a few files with distinct leaves, 0-2 "shadows" (another file of a leaf that exists already,
+        #    in another directory), 1-3 links (mostly named like their target, in another directory)
+        placed = {}                                     # (dir, leaf) -> ('file', None) | ('link', target)
+        for leaf in rng.sample(leaves, rng.randint(3, 5)):
+            placed[(rng.choice(dirs), leaf)] = ('file', None)
+        for _ in range(rng.randint(0, 2)):
+            d, leaf = rng.choice(dirs), rng.choice(sorted(set(l for _, l in placed)))
+            placed.setdefault((d, leaf), ('file', None))
+        reals = sorted(k for k, v in placed.items() if v[0] == 'file')
+        for _ in range(rng.randint(1, 3)):
+            target = rng.choice(reals)
+            d, leaf = rng.choice(dirs), target[1] if rng.random() < 0.7 else rng.choice(leaves)
+            placed.setdefault((d, leaf), ('link', target))
+        links_to = {}
+        for (d, leaf), (kind, target) in placed.items():
+            if kind == 'link':
+                links_to.setdefault(target, []).append(d)
+        # 2. what a file includes: later leaves that can be found from one of the places it is reached at (mostly; a cycle or a
+        #    missing include now and then must be diagnosed in every order)
+        for number, (d, leaf) in enumerate(reals):
+            reach = [d] + links_to.get((d, leaf), []) + incdirs
+            findable = sorted(set(l for (dd, l) in placed if dd in reach))
+            incs = [x for x in findable if x > leaf and rng.random() < 0.6]
+            if rng.random() < 0.04:
+                incs.append(rng.choice(leaves))
+            text = ''.join('#include "%s.prophy"\n' % i for i in incs)
+            text += 'struct S_%s_%d { u8 own[%d]; };\n' % (leaf, number, number + 1)
+            text += 'struct T_%s { u8 k[%d];%s };\n' % (leaf, number + 1, ''.join(' T_%s f_%s;' % (i, i) for i in incs))
+            files[(d, leaf)] = text
+            with open(os.path.join(base, d, leaf + '.prophy'), 'w') as f:
+                f.write(text)
+            listing['%s/%s.prophy' % (d, leaf)] = text
+            mfiles.append({'dir': d, 'leaf': leaf + '.prophy', 'includes': [i + '.prophy' for i in incs],
+                           'defines': ['S_%s_%d' % (leaf, number), 'T_%s' % leaf]})
+            mentries.append({'dir': d, 'leaf': leaf + '.prophy', 'tdir': d, 'tleaf': leaf + '.prophy'})
+        for (d, leaf), (kind, target) in sorted(placed.items()):
+            if kind != 'link':
+                continue
+            os.symlink(os.path.join('..', target[0], target[1] + '.prophy'), os.path.join(base, d, leaf + '.prophy'))
+            listing['%s/%s.prophy' % (d, leaf)] = '->../%s/%s.prophy' % target
+            mentries.append({'dir': d, 'leaf': leaf + '.prophy', 'tdir': target[0], 'tleaf': target[1] + '.prophy'})
+        paths = sorted(listing)
+        mains = rng.sample(paths, min(len(paths), rng.randint(2, 3)))
+        if len(set(os.path.basename(m) for m in mains)) < len(mains):
+            continue                    # two inputs of one base name: refused in every order (collision_cases)
+        casej = {'files': listing, 'include_dirs': incdirs, 'inputs': mains}
+        chk.count(('links', li), True)
+        chk.bump('link-layout')
+        runs = {}
+        orders = list(itertools.permutations(mains)) + [(m,) for m in mains]
+        # the model of the file processor with links on the same file system, for every order
+        for order in orders:
+            cwd = os.getcwd()
+            os.chdir(base)
+            try:
+                impl = trace_process(list(order), list(incdirs))
+                impl = [{'leaf': r['leaf'] + '.prophy', 'visible': r['visible'],
+                         'parsed': [os.path.relpath(os.path.realpath(x), os.path.realpath(base)) for x in r['parsed']],
+                         'shape': include_shape(r['nodes'], 'S_')} for r in impl]
+            except Exception as ex:  # noqa
+                impl = {'error': {'FileNotFoundError': 'notFound', 'CyclicIncludeError': 'cyclic', 'SameNameError': 'sameName',
+                                  'AmbiguousIncludeError': 'ambiguous', 'IncludeDepthError': 'tooDeep'}.get(type(ex).__name__, type(ex).__name__)}
+            finally:
+                os.chdir(cwd)
+            link_reqs.append({'op': 'prophyc_files_links', 'entries': mentries, 'files': mfiles, 'include_dirs': list(incdirs),
+                              'mains': [{'dir': os.path.dirname(m), 'leaf': os.path.basename(m)} for m in order]})
+            link_rows.append((dict(casej, order=list(order), model_files=mfiles), impl))
+        for oi, order in enumerate(orders):
+            out = os.path.join(base, 'out%d' % oi)
+            os.makedirs(out)
+            rc, so, se = run_cli([x for d in incdirs for x in ('-I', d)] + ['--cpp_out', out] + list(order), base)
+            if 'Traceback' in se:
+                chk.property_violation(dict(casej, order=list(order)), {'what': 'prophyc crashed', 'stderr': se[-300:]})
+            runs[order] = (rc, dict((fn, open(os.path.join(out, fn), 'rb').read()) for fn in sorted(os.listdir(out))) if rc == 0 else {}, se[:200])
+        full = [o for o in orders if len(o) == len(mains)]
+        if len(set(runs[o][0] == 0 for o in full)) > 1:
+            ok = next(o for o in full if runs[o][0] == 0)
+            bad = next(o for o in full if runs[o][0] != 0)
+            chk.property_violation(casej, {'what': 'the order %s compiles, the order %s is refused: %s' % (list(ok), list(bad), runs[bad][2])})
+            continue
+        seen = {}
+        for o in orders:
+            for fn, data in runs[o][1].items():
+                if fn in seen and seen[fn][1] != data:
+                    chk.property_violation(casej, {'what': 'generated file %s differs between the inputs %s and %s' % (fn, list(seen[fn][0]), list(o))})
+                    break
+                seen.setdefault(fn, (o, data))
+            else:
+                continue
+            break
+    for (casej, impl), m in zip(link_rows, client.batch(link_reqs)):
+        if isinstance(impl, dict) and impl['error'] in ('ParseError', 'ModelError') and 'error' not in m:
+            chk.bump('link-layout: schema error (two files define one name)')
+            continue            # the model knows files and names, not the prophy language
+        chk.corr_compared += 1
+        chk.bump('link-layout outcome: ' + (impl['error'] if isinstance(impl, dict) else 'ok'))
+        marker_of = dict(('%s/%s' % (f['dir'], f['leaf']), f['defines'][0]) for f in casej['model_files'])
+        for r in m.get('results', []) + [a for a in m.get('alone', []) if a]:
+            r['shape'] = [[d, marker_of.get(g)] for d, g in r['shape']]
+        got = {'error': m['error']} if 'error' in m else m.get('results')
+        if isinstance(impl, dict) and 'error' in m:
+            # the parser goes on after a missing or cyclic include to report every error of the file: which error ends
+            # the run first is not compared, only that the run ends with one
+            pass
+        elif got != impl:
+            chk.correspondence_mismatch('FilesL.processMains = FileProcessor trace on a file system with links', casej, impl, got)
+        elif 'results' in m:
+            # what the theorem C20_links_cache_transparent says: each input gets what a fresh processor gives it alone
+            for r, alone in zip(m['results'], m['alone']):
+                if alone is not None and (r['visible'], r['shape']) != (alone['visible'], alone['shape']):
+                    chk.property_violation(casej, {'what': 'input %s is compiled from other files in this run than when it is compiled alone' % r['leaf'],
+                                                   'here': [r['visible'], r['shape']], 'alone': [alone['visible'], alone['shape']]})
+
+
 def collision_cases(chk, root):
     """independent inputs must not influence each other's outputs: two inputs of one base name (D84), a generator error for one
     input (D85) - whatever the order on the command line, the same files with the same bytes"""
@@ -497,6 +639,12 @@ def collision_cases(chk, root):
           'dir/x.prophy': 'typedef u8 W;\n', 'inc/x.prophy': 'typedef u64 W;\n',
           'a.prophy': '#include "dir/link.prophy"\nstruct A { T t; };\n', 'b.prophy': '#include "real/target.prophy"\nstruct B { T t; };\n'},
          ['a.prophy', 'b.prophy'], ['-I', '@D/inc', '--cpp_out', '@O', '--python_out', '@O']),
+        ('a file used through two links to it, found by a file that is itself used through a link and directly (D180)',
+         {'dirA/t.prophy': '#include "x.prophy"\nstruct T { W w; };\n', 'real/y.prophy': '#include "t.prophy"\nstruct Y { T t; };\n',
+          'p/y.prophy': '->../real/y.prophy', 'p/t.prophy': '->../dirA/t.prophy', 'inc2/t.prophy': '->../dirA/t.prophy',
+          'p/x.prophy': 'typedef u8 W;\n', 'inc/x.prophy': 'typedef u64 W;\n',
+          'a.prophy': '#include "p/y.prophy"\nstruct A { Y y; };\n', 'b.prophy': '#include "real/y.prophy"\nstruct B { Y y; };\n'},
+         ['a.prophy', 'b.prophy'], ['-I', '@D/inc2', '-I', '@D/inc', '--cpp_out', '@O']),
         ('the same, the include exists next to the link only',
          {'real/target.prophy': '#include "x.prophy"\nstruct T { W w; };\n', 'dir/link.prophy': '->../real/target.prophy',
           'dir/x.prophy': 'typedef u8 W;\n',
@@ -614,6 +762,7 @@ def run_c20(tier):
         patched_runs(chk, root)
         isar_runs(chk, root)
         collision_cases(chk, root)
+        link_layouts(chk, root)
         for (casej, impl), m in zip(crows, client.batch(creqs)):
             chk.corr_compared += 1
             want = [{'leaf': r['leaf'] + '.prophy', 'visible': r['visible'], 'parsed': r['parsed']} for r in impl] if isinstance(impl, list) else impl
